@@ -322,6 +322,28 @@ def main(argv=None):
                          "reused_identical_result": bool(rep.get("cached"))})
         if rep.get("error"):
             tool_errors.append(f"{c.fq}: {rep['error']}")
+            # the symbolic side cannot decide this function (changed code outside the supported subset / of another
+            # shape).  For contracts declared `public_io_only` (the generator hands in only public inputs of the real
+            # function, the clauses read only its public result - nothing depends on a representation the change may
+            # have altered) an input on which a clause fails natively is a counterexample against the real code: it is
+            # reported as a violation with its replay, next to the checker error.  Without one: undecided (exit 3).
+            if getattr(c, "public_io_only", False) and nat and not nat.get("error"):
+                native_evals += nat.get("evaluations", 0)
+                seen_cl = set()
+                for fl in nat.get("failures", []):
+                    for cl, detail in fl["clauses"]:
+                        if cl in seen_cl or not cl.startswith("ensures") or "clause raised" in str(detail):
+                            continue
+                        if match_known(c.fq, "ensures", cl) is not None or not clause_in_property(c, cl, "ensures", prop):
+                            continue
+                        seen_cl.add(cl)
+                        from . import native
+                        violations += 1
+                        rpath = os.path.join(OUT, "replay", f"{prop}-{hashlib.sha1((c.fq + cl).encode()).hexdigest()[:10]}.py")
+                        native.write_replay(rpath, prop, f"{c.fq}/native-contract:{cl} (symbolic side undecided: "
+                                                         f"{str(rep['error'])[:120]})", c.fq, c.spec_module, c.name, seed,
+                                            fl["index"], [cl])
+                        lines.append(f"VIOLATION property={prop} replay={rpath}")
             continue
         if rep.get("requires_sat") == "unsat":
             tool_errors.append(f"{c.fq}: vacuous contract (requires unsatisfiable)")
